@@ -28,7 +28,7 @@ LEVEL = "fault_enumeration"
 WRAP = ("-Wl,--wrap=fopen,--wrap=fwrite,--wrap=fflush,--wrap=fclose",)
 UNKNOWN_CAP = 1000000
 # (fault/abort runs, prefix cuts) planned per tier
-BUDGET = {"quick": (16000, 30000), "thorough": (420000, 260000), "replay": (10 ** 9, 10 ** 9)}
+BUDGET = {"quick": (16000, 30000), "thorough": (250000, 200000), "replay": (10 ** 9, 10 ** 9)}
 
 
 def nproc():
@@ -131,8 +131,12 @@ def parse_ops(s):
     return out
 
 
-def events_of_run(gid, rid, ops, toks, rc):
+def events_of_run(gid, rid, ops, toks, rc, ref_bytes=None):
+    """harness tokens of one run -> events.  ref_bytes = None: run 1 of a group (full arguments); otherwise the
+    compact form: call events carry k (ordinal of the call in the history, arguments are those of run 1) and an
+    OK close whose bytes equal ref_bytes carries sameAsRef instead of the bytes (lossless de-duplication)"""
     cols = ops[0]["cols"]
+    compact = ref_bytes is not None
     ev, opi = [], 1
     base = {"id": gid, "run": rid + " " + rc.label()}
     nops, closed_bytes = 0, None
@@ -146,16 +150,25 @@ def events_of_run(gid, rid, ops, toks, rc):
             o = parse_ops(f[3]); nops += len(o)
             e = dict(base, st=int(f[0]), sf=f[1] == "1", acc=int(f[2]), ops=o)
             if key == "B":
-                e.update(e="WriteBatch", c=op["c"], n=op["n"], withDefs=op["withDefs"], defs=op["defs"], vals=op["vals"])
+                e.update(e="WriteBatch")
+                if not compact:
+                    e.update(c=op["c"], n=op["n"], withDefs=op["withDefs"], defs=op["defs"], vals=op["vals"])
             else:
                 e.update(e="NewRowGroup")
+            if compact:
+                e["k"] = opi - 1
             ev.append(e)
         elif key == "C" and f[0].lstrip("-").isdigit():
             o = parse_ops(f[3]); nops += len(o)
-            b = list(bytes.fromhex(f[4])) if f[4] != "-" else []
+            b = bytes.fromhex(f[4]) if f[4] != "-" else b""
             if int(f[0]) == 0:
-                closed_bytes = bytes(b)
-            ev.append(dict(base, e="Close", st=int(f[0]), sf=f[1] == "1", acc=int(f[2]), ops=o, bytes=b, fds=int(f[5])))
+                closed_bytes = b
+            e = dict(base, e="Close", st=int(f[0]), sf=f[1] == "1", acc=int(f[2]), ops=o, fds=int(f[5]))
+            if compact and int(f[0]) == 0 and len(b) > 0 and b == ref_bytes:
+                e["sameAsRef"] = True
+            else:
+                e["bytes"] = list(b)
+            ev.append(e)
         elif key == "A" and f[0] == "ok":
             o = parse_ops(f[4]); nops += len(o)
             ev.append(dict(base, e="Abort", exists=int(f[1]), fds=int(f[2]), acc=int(f[3]), ops=o))
@@ -574,7 +587,7 @@ def _run(chk, tier, replay, binary, fdir, extra_paths):
             evs.append({"id": gid, "e": "Rerun"})
             toks = res.get(rid)
             if toks is not None:
-                revs, _, _ = events_of_run(gid, rid, ops, toks, rc)
+                revs, _, _ = events_of_run(gid, rid, ops, toks, rc, ref_bytes=fb)
                 evs += revs
                 nruns += 1
                 if rc.arm != "n" or rc.model_arm:
@@ -666,7 +679,8 @@ class Traces:
         used = [i for i in range(self.n) if self.load[i] > 0]
 
         def work(i):
-            return common.run_tlc("SinkTrace", workers=1, env={"TRACE": os.path.join(self.tdir, "t%d.ndjson" % i)}, timeout=3000, heap="6g")
+            return common.run_tlc("SinkTrace", workers=1, env={"TRACE": os.path.join(self.tdir, "t%d.ndjson" % i)}, timeout=3000, heap="6g",
+                                  extra_args=("-checkpoint", "0"))       # a checkpoint would refuse behaviours longer than 65535 states
 
         verdicts, stats, ress = [], {k: 0 for k in self.KEYS}, []
         try:
